@@ -10,6 +10,7 @@ import "github.com/open2b/scriggo/native"
 // not model: they are counted as having left the kernel and are not judged.
 
 func vc04_build(prefix, suffix string, n int) {
+	vopt_goleak()
 	sym := vsym_bytes(n)
 	src := append(append([]byte(prefix), sym...), suffix...)
 	_, err := BuildTemplate(Files{"index.html": src}, "index.html", nil)
@@ -23,6 +24,7 @@ func vc04_build(prefix, suffix string, n int) {
 }
 
 func vc04_buildprog(prefix, suffix string, n int) {
+	vopt_goleak()
 	sym := vsym_bytes(n)
 	src := append(append([]byte(prefix), sym...), suffix...)
 	_, err := Build(Files{"main.go": src}, nil)
@@ -35,6 +37,61 @@ func vc04_buildprog(prefix, suffix string, n int) {
 	vreach("built")
 }
 
+// Files that extend, import or render each other, in every combination of
+// how the second file is reached and what it starts with (cycles included),
+// plus two arbitrary bytes in the second file.
+func vc04_build_multi() {
+	vopt_goleak()
+	reach := []string{
+		"{{ render \"p.html\" }}",
+		"{{ render \"p.html\" default 5 }}",
+		"{% import \"p.html\" %}",
+		"{% import P \"p.html\" %}{{ P.X() }}",
+		"{% extends \"p.html\" %}",
+		"{% macro M %}{{ render \"p.html\" default \"x\" }}{% end %}{{ M() }}",
+		"{% import \"p.html\" for X %}{{ X() }}",
+		"{% if true %}{{ render \"p.html\" default render \"l.html\" }}{% end %}",
+	}
+	second := []string{
+		"{% extends \"l.html\" %}",
+		"{% extends \"l.html\" %}{% macro B %}b{% end %}",
+		"{% import \"l.html\" %}{% macro X %}x{% end %}",
+		"{{ render \"l.html\" }}",
+		"{{ render \"index.html\" }}",
+		"{% extends \"index.html\" %}",
+		"{% macro X %}x{% end %}",
+		"text",
+		"{% macro X %}{{ render \"l.html\" default 3 }}{% end %}",
+	}
+	third := []string{"", "{{ B() }}", "{% extends \"p.html\" %}", "{% macro B %}c{% end %}"}
+	p := second[vsym_choice(len(second))]
+	if vsym_choice(2) == 1 {
+		p = string(vsym_bytes(2)) + p
+	}
+	fsys := Files{
+		"index.html": []byte(reach[vsym_choice(len(reach))]),
+		"p.html":     []byte(p),
+		"l.html":     []byte(third[vsym_choice(len(third))]),
+	}
+	_, err := BuildTemplate(fsys, "index.html", nil)
+	if err != nil {
+		_, ok := err.(*BuildError)
+		vassert(ok, "error-is-a-BuildError")
+		vreach("rejected")
+		return
+	}
+	vreach("built")
+}
+
+// a long tail after the symbolic bytes: more tokens than the lexer's channel
+// buffers, so a parser that returns early without draining leaves the lexer
+// goroutine blocked
+const vc04Tail = "{{ 1 }}{{ 1 }}{{ 1 }}{{ 1 }}{{ 1 }}{{ 1 }}{{ 1 }}{{ 1 }}{{ 1 }}{{ 1 }}{{ 1 }}{{ 1 }}"
+
+func vh_c04_build_leak1_q() { vc04_build("{{ ", " }}"+vc04Tail, 2) }
+func vh_c04_build_leak2_q() { vc04_build("{% switch %}", "{% end %}"+vc04Tail, 2) }
+func vh_c04_build_leak3_q() { vc04_build("{% extends \"l.html\" %}", vc04Tail, 2) }
+func vh_c04_build_multi_q() { vc04_build_multi() }
 func vh_c04_build_show_q() { vc04_build("{{ ", " }}", 2) }
 func vh_c04_build_stmt_q() { vc04_build("{% ", " %}", 2) }
 func vh_c04_build_expr_q() { vc04_build("{{ 7", " }}", 2) }
